@@ -261,17 +261,24 @@ Proof.
   - intros v Hv. rewrite !step_other by assumption. reflexivity.
 Qed.
 
+Lemma run_app s l1 l2 : runU s (l1 ++ l2) = runU (runU s l1) l2.
+Proof. unfold run. apply fold_left_app. Qed.
+
 Lemma seq_schedule_from k : forall m s,
   lock s = None -> (forall w, m <= w -> pcs s w = Start) ->
-  let s' := runU s (flat_map (fun w => repeat w 6) (seq m k)) in
-  lock s' = None /\ (forall w, m <= w < m + k -> pcs s' w = Done) /\ (forall w, w < m -> pcs s' w = pcs s w).
+  lock (runU s (flat_map (fun w => repeat w 6) (seq m k))) = None /\
+  (forall w, m <= w < m + k -> pcs (runU s (flat_map (fun w => repeat w 6) (seq m k))) w = Done) /\
+  (forall w, w < m -> pcs (runU s (flat_map (fun w => repeat w 6) (seq m k))) w = pcs s w).
 Proof.
-  induction k as [|k IH]; intros m s Hl Hst; cbn [seq flat_map].
-  - cbn. split; [assumption|]. split; [intros; lia| reflexivity].
-  - unfold run. rewrite fold_left_app. fold (runU s (repeat m 6)).
+  induction k as [|k IH]; intros m s Hl Hst.
+  - replace (flat_map (fun w => repeat w 6) (seq m 0)) with (@nil nat) by reflexivity.
+    replace (runU s []) with s by reflexivity.
+    split; [assumption|]. split; [intros; lia| reflexivity].
+  - replace (flat_map (fun w => repeat w 6) (seq m (S k)))
+      with (repeat m 6 ++ flat_map (fun w => repeat w 6) (seq (S m) k)) by reflexivity.
+    rewrite run_app.
     destruct (six_steps s m (Hst m (le_n _)) Hl) as (P & L & O).
-    set (s1 := runU s (repeat m 6)) in *.
-    fold (runU s1 (flat_map (fun w => repeat w 6) (seq (S m) k))).
+    remember (runU s (repeat m 6)) as s1 eqn:E1. clear E1.
     destruct (IH (S m) s1 L) as (L' & D' & O').
     { intros w Hw. rewrite O by lia. apply Hst. lia. }
     split; [exact L'|]. split.
@@ -294,3 +301,88 @@ Proof.
 Qed.
 End SeqSchedule.
 End Monoid.
+
+Arguments msum {A}. Arguments total {A}.
+
+(* ---------------------------------------------------------------- without the lock: a lost update *)
+Open Scope Z_scope.
+Definition c_wit (w : nat) : Z := match w with O => 1 | _ => 10 end.
+Definition d_wit (w : nat) : Z := match w with O => 100 | _ => 1000 end.
+Definition sched_wit : list nat := [0;1;0;1;0;1;0;1;0;1;0;1]%nat.
+
+Lemma unlocked_lost_update :
+  exists (c d : nat -> Z) (sched : list nat),
+    Forall (fun w => (w < 2)%nat) sched /\
+    let s := run Z.add false c d (init 0 0) sched in
+    (forall w, (w < 2)%nat -> pcs s w = Done) /\
+    XXT s <> 0 + msum Z.add 0 (map c (seq 0 2)) /\ YXT s <> 0 + msum Z.add 0 (map d (seq 0 2)) /\
+    XXT s = 0 + c 1%nat /\ YXT s = 0 + d 1%nat.
+Proof.
+  exists c_wit, d_wit, sched_wit. split.
+  - unfold sched_wit. repeat constructor.
+  - cbv zeta. split.
+    + intros w Hw. destruct w as [|[|w]]; [vm_compute; reflexivity | vm_compute; reflexivity | lia].
+    + vm_compute. repeat split; discriminate.
+Qed.
+Close Scope Z_scope.
+
+(* ---------------------------------------------------------------- _sort_and_unpack *)
+Section SortProofs.
+Variable B : Type.
+Notation kle := (fun p q : nat * B => fst p <= fst q).
+Notation klt := (fun p q : nat * B => fst p < fst q).
+
+Lemma insert_perm (p : nat * B) l : Permutation (insert_by_idx p l) (p :: l).
+Proof. induction l as [|q l IH]; cbn; [reflexivity|]. destruct (fst p <=? fst q); [reflexivity|].
+  rewrite IH. apply perm_swap. Qed.
+
+Lemma sort_perm (l : list (nat * B)) : Permutation (sort_by_idx l) l.
+Proof. induction l as [|p l IH]; cbn; [reflexivity|]. rewrite insert_perm. constructor. exact IH. Qed.
+
+Lemma insert_sorted (p : nat * B) l : StronglySorted kle l -> StronglySorted kle (insert_by_idx p l).
+Proof.
+  induction l as [|q l IH]; intros Hs; cbn.
+  - constructor; constructor.
+  - inversion Hs as [|? ? Hs' Hf]; subst. destruct (Nat.leb_spec (fst p) (fst q)) as [Hle|Hlt].
+    + constructor; [exact Hs|]. constructor; [exact Hle|].
+      eapply Forall_impl; [|exact Hf]. cbn. intros; lia.
+    + constructor; [apply IH; exact Hs'|].
+      eapply Permutation_Forall; [symmetry; apply insert_perm|]. constructor; [cbn; lia|exact Hf].
+Qed.
+
+Lemma sort_sorted (l : list (nat * B)) : StronglySorted kle (sort_by_idx l).
+Proof. induction l as [|p l IH]; cbn; [constructor|]. apply insert_sorted. exact IH. Qed.
+
+Lemma sorted_perm_unique (l1 : list (nat * B)) : forall l2,
+  StronglySorted klt l1 -> StronglySorted kle l2 -> Permutation l1 l2 -> l1 = l2.
+Proof.
+  induction l1 as [|a l1 IH]; intros l2 H1 H2 HP.
+  - apply Permutation_nil in HP. congruence.
+  - destruct l2 as [|b l2]; [apply Permutation_sym, Permutation_nil in HP; discriminate|].
+    inversion H1 as [|? ? H1' F1]; subst. inversion H2 as [|? ? H2' F2]; subst.
+    assert (Hab : a = b).
+    { assert (Ia : In a (b :: l2)) by (eapply Permutation_in; [exact HP|left; reflexivity]).
+      assert (Ib : In b (a :: l1)) by (eapply Permutation_in; [symmetry; exact HP|left; reflexivity]).
+      destruct Ia as [E|Ia]; [congruence|]. destruct Ib as [E|Ib]; [congruence|].
+      rewrite Forall_forall in F1, F2. specialize (F1 _ Ib). specialize (F2 _ Ia). cbn in F1, F2. lia. }
+    subst b. f_equal. apply IH; auto. eapply Permutation_cons_inv; exact HP.
+Qed.
+
+Lemma enumerate_from_sorted (rs : list B) : forall m, StronglySorted klt (combine (seq m (length rs)) rs).
+Proof.
+  induction rs as [|r rs IH]; intros m; cbn; [constructor|]. constructor; [apply IH|].
+  apply Forall_forall. intros q Hq. destruct q as [i x]. apply in_combine_l in Hq. apply in_seq in Hq. cbn. lia.
+Qed.
+
+Lemma enumerate_from_snd (rs : list B) : forall m, map snd (combine (seq m (length rs)) rs) = rs.
+Proof. induction rs as [|r rs IH]; intros m; cbn; [reflexivity|]. rewrite IH. reflexivity. Qed.
+
+Theorem sort_and_unpack_input_order (results : list B) (arrived : list (nat * B)) :
+  Permutation arrived (enumerate results) -> sort_and_unpack arrived = results.
+Proof.
+  intros HP. unfold sort_and_unpack.
+  replace (sort_by_idx arrived) with (enumerate results); [apply enumerate_from_snd|].
+  apply sorted_perm_unique; [apply enumerate_from_sorted | apply sort_sorted |].
+  rewrite sort_perm. symmetry. exact HP.
+Qed.
+End SortProofs.
